@@ -364,12 +364,42 @@ func (lib *SpecLib) loadContractFile(path, pkgPath string) error {
 				}
 				cl.Kind = "sendsite"
 				cl.Text = strings.TrimSpace(strings.TrimPrefix(strings.TrimSpace(rest), "requires"))
+				// optional [ElemType]: only sends on channels whose element type is (ends with) ElemType
+				if strings.HasPrefix(cl.Text, "[") {
+					if j := strings.Index(cl.Text, "]"); j > 0 {
+						cl.Label = cl.Text[1:j]
+						cl.Text = strings.TrimSpace(cl.Text[j+1:])
+					}
+				}
 				e, err := parseCExpr(cl.Text)
 				if err != nil {
 					return fail(err)
 				}
 				cl.Expr = e
 				cur.Clauses = append(cur.Clauses, cl)
+				continue
+			case "recvsite":
+				// recvsite assumes [ElemType] <expr over ch, val>: the message invariant of a channel, assumed for every value
+				// received from a channel of that element type (its counterpart is a `sendsite requires` at the senders)
+				f := strings.Fields(rest)
+				if len(f) < 2 || f[0] != "assumes" {
+					return fail(fmt.Errorf("recvsite assumes <expr>"))
+				}
+				cl.Kind = "recvsite"
+				cl.Text = strings.TrimSpace(strings.TrimPrefix(strings.TrimSpace(rest), "assumes"))
+				if strings.HasPrefix(cl.Text, "[") {
+					if j := strings.Index(cl.Text, "]"); j > 0 {
+						cl.Label = cl.Text[1:j]
+						cl.Text = strings.TrimSpace(cl.Text[j+1:])
+					}
+				}
+				e, err := parseCExpr(cl.Text)
+				if err != nil {
+					return fail(err)
+				}
+				cl.Expr = e
+				cur.Clauses = append(cur.Clauses, cl)
+				lib.Scans = append(lib.Scans, fmt.Sprintf("recvsite assumes (channel message invariant) in %s (%s:%d): %s", cur.Key, filepath.Base(path), it.line, cl.Text))
 				continue
 			case "preserves":
 				// preserves T1, T2: with `modifies everything`, field heaps of these struct types keep their values
@@ -413,7 +443,7 @@ func (lib *SpecLib) loadContractFile(path, pkgPath string) error {
 	return nil
 }
 
-var clauseKeywords = map[string]bool{"sendsite": true, "package": true, "callsite": true, "iterator": true, "iter": true, "preserves": true, "functype": true, "label": true, "captures": true, "func": true, "pred": true, "specfunc": true, "axiom": true, "lemma": true,
+var clauseKeywords = map[string]bool{"sendsite": true, "recvsite": true, "package": true, "callsite": true, "iterator": true, "iter": true, "preserves": true, "functype": true, "label": true, "captures": true, "func": true, "pred": true, "specfunc": true, "axiom": true, "lemma": true,
 	"requires": true, "ensures": true, "modifies": true, "loop": true, "floats": true, "may_panic": true,
 	"inline": true, "trusted": true, "pure": true, "property": true, "assume": true, "nosafety": true}
 
